@@ -114,6 +114,19 @@ func (w *walker[F]) explore(s F, ref []int, script []string, d int) bool {
 	return w.observe(s, ref, script, "re-observed after all descendants were built")
 }
 
+// longNews: constructors with many arguments (allocation in chunks), explored to a small depth only
+func longNews() [][]int {
+	var out [][]int
+	for _, n := range []int{8, 15, 16, 17, 31, 32, 33, 64, 65, 100} {
+		xs := make([]int, n)
+		for i := range xs {
+			xs[i] = 1 + (i*7+i/3)%9
+		}
+		out = append(out, xs)
+	}
+	return out
+}
+
 func news() [][]int {
 	out := [][]int{{}}
 	for l := 1; l <= 3; l++ {
@@ -150,16 +163,23 @@ func runImpl[F any](name string, tr seq.Seq[F, int], xs []int, depth int) drv.Re
 }
 
 func main() {
-	starts := news()
-	depth := func(tier string) int {
+	short := news()
+	starts := append(append([][]int{}, short...), longNews()...)
+	depthOf := func(tier string) int {
 		if tier == "thorough" {
 			return 8
 		}
 		return 6
 	}
+	depth := func(tier string, xs []int) int {
+		if len(xs) > 3 {
+			return 2
+		}
+		return depthOf(tier)
+	}
 	drv.Main(drv.Property{
 		ID: "C19", Level: "model_checking", PanicIsViolation: true,
-		Rule:        "one case = (implementation list|slice, start New(xs) for every xs over {1,2,3} of length <= 3); from it every script of Cons(1|2|3) / Tail of length <= 6 (8 in thorough) is executed on the real trait (a tree of values, no de-duplication, because hidden state such as slice capacity differs between paths); each produced value is observed (Length, IsEmpty, Head/Tail walk, Fold with the non-commutative operation a*10+b from empty 7) right after the operation, the argument is re-observed, and every value is re-observed after all its later siblings and descendants were built; states = distinct element lists reached, transitions = operations executed; both implementations are compared with the same []int reference, hence with each other",
+		Rule:        "one case = (implementation list|slice, start New(xs) for every xs over {1,2,3} of length <= 3, plus ten long argument lists of 8..100 elements explored to depth 2); from it every script of Cons(1|2|3) / Tail of length <= 6 (8 in thorough) is executed on the real trait (a tree of values, no de-duplication, because hidden state such as slice capacity differs between paths); each produced value is observed (Length, IsEmpty, Head/Tail walk, Fold with the non-commutative operation a*10+b from empty 7) right after the operation, the argument is re-observed, and every value is re-observed after all its later siblings and descendants were built; states = distinct element lists reached, transitions = operations executed; both implementations are compared with the same []int reference, hence with each other",
 		Assumptions: []string{"element values 1..3 stand for all values (the traits are parametric)", "New(xs...) aliasing its argument slice is outside the statement and not checked"},
 		Cases: func(string) (int, func(int) string) {
 			return 2 * len(starts), func(i int) string {
@@ -171,9 +191,9 @@ func main() {
 		},
 		Run: func(tier string, i int, _ time.Time) drv.Result {
 			if i < len(starts) {
-				return runImpl[list.Seq[int]]("list", list.Trait[int]("seq.int"), starts[i], depth(tier))
+				return runImpl[list.Seq[int]]("list", list.Trait[int]("seq.int"), starts[i], depth(tier, starts[i]))
 			}
-			return runImpl[slice.Seq[int]]("slice", slice.Trait[int]("seq.int"), starts[i-len(starts)], depth(tier))
+			return runImpl[slice.Seq[int]]("slice", slice.Trait[int]("seq.int"), starts[i-len(starts)], depth(tier, starts[i-len(starts)]))
 		},
 		Extra: func(_ string, cov map[string]any) {
 			cov["traces_validated_against_impl"] = cov["transitions"]
